@@ -139,6 +139,25 @@ def _run(case):
                     'input' if (w is fc or np.shares_memory(w, fc)) else 'fresh', None, 'wrap:daubechies'))
         wc = np.array(w, copy=True)
         req.append((_line('daubechies', fc0, code=ci), wc, _mtol(dt, fc0) * 8, f'daubechies'))
+        # inline=True on a NON-contiguous float view of the same values (rows packed but padded, strided, Fortran ...):
+        # the transform is written into exactly that view - same values as on the contiguous array, nothing outside it
+        if layout not in ('C', 'readonly'):
+            V = gen.relayout(fc0.copy(), layout)
+            root = V
+            while root.base is not None and isinstance(root.base, np.ndarray):
+                root = root.base
+            root0 = root.copy()
+            wv = mh.daubechies(V, code, inline=True)
+            resv = np.array(V, copy=True)
+            if not (wv is V or np.shares_memory(wv, V)):
+                f.append(dict(kind='property', key='inline:daubechies-view-not-in-place', detail=dict(layout=layout)))
+            tolv = _mtol(dt, fc0) * 8
+            if resv.shape != wc.shape or float(np.abs(resv.astype(np.float64) - wc.astype(np.float64)).max()) > tolv:
+                f.append(dict(kind='property', key='daubechies:inline-view-differs',
+                              detail=dict(layout=layout, code=code, maxdiff=float(np.abs(resv.astype(np.float64) - wc.astype(np.float64)).max()) if resv.shape == wc.shape else None)))
+            V[...] = fc0
+            if not np.array_equal(root, root0):
+                f.append(dict(kind='property', key='daubechies:inline-wrote-outside-the-view', detail=dict(layout=layout, code=code)))
         w0 = wc.copy()
         r = mh.idaubechies(wc, code)
         if not np.array_equal(w0, wc):
